@@ -112,6 +112,18 @@ def coq_project():
 
 
 def coq_make(targets=None):
+    # fast path without the global lock: project file unchanged and every target already up to date
+    if targets and os.path.exists(os.path.join(COQ, "Makefile")) and os.path.exists(os.path.join(COQ, "_CoqProject")):
+        cur = open(os.path.join(COQ, "_CoqProject")).read()
+        files = []
+        for d in ("lib", "model", "gen", "proof", "props"):
+            dd = os.path.join(COQ, d)
+            if os.path.isdir(dd):
+                files += sorted(os.path.join(d, f) for f in os.listdir(dd) if f.endswith(".v") and not f.startswith("."))
+        if cur.split("\n")[5:] == files + [""]:
+            rc, out, _ = sh(["make", "-q"] + targets, cwd=COQ, timeout=300)
+            if rc == 0:
+                return 0, "up to date"
     with CoqLock():
         changed = coq_project()
         if changed or not os.path.exists(os.path.join(COQ, "Makefile")):
